@@ -87,6 +87,7 @@ class _B:
         self.kinds = []
         self.affine = True
         self.pnames, self.cnames, self.unames = [], [], []
+        self.head_eqs = []      # equations kept in this order, before the shuffled rest
 
     def declare(self, name, line, value, given=False):
         self.decl[name] = line
@@ -121,6 +122,7 @@ class _B:
         r.shuffle(order)
         eqs = list(self.eqs)
         r.shuffle(eqs)
+        eqs = list(self.head_eqs) + eqs
         s = "model %s\n " % name + "\n ".join(self.decl[n] for n in order)
         if self.inits:
             s += "\ninitial equation\n " + ";\n ".join(self.inits) + ";"
@@ -207,11 +209,13 @@ def gen_model(rng, stream="main", size=None):
     n = size if size is not None else r.randint(3, 7)
     kinds_first = ["const", "paramexpr", "affine"]
     kinds_all = ["const", "const", "alias", "alias", "negalias", "negalias", "affine", "affine", "paramexpr",
-                 "scaled", "pscaled", "rscaled", "block", "elim", "elim", "elimchain", "zero", "negform", "paramalias", "inputalias"]
+                 "scaled", "pscaled", "rscaled", "block", "elim", "elim", "elimchain", "aliaschain", "aliaschain", "zero", "negform", "paramalias", "inputalias"]
     if stream == "nonlinear":
         kinds_all = kinds_all + ["nonlin", "nonlin", "nonlin", "ifelim", "ifelim"]
     if stream in ("contradiction", "iter"):
         kinds_all = [k for k in kinds_all if k not in ("elim", "elimchain")]
+    if stream == "aliaschain":
+        kinds_all = ["aliaschain"] * 5 + ["const", "affine", "alias", "negalias"]
     i = 0
     while i < n:
         pool = b.unknowns + b.states + b.unames
@@ -334,6 +338,50 @@ def gen_model(rng, stream="main", size=None):
             b.eqs.extend(ceqs + ["%s = 2*%s + %s" % (user, chain[0], lit(k) if k >= 0 else par(lit(k)))])
             b.kinds.append("elimchain%d" % depth)
             i += depth + 1
+            continue
+        elif kind == "aliaschain":
+            # a tree of 3-6 alias equations over one protected variable (parameter / input / constant / state) and
+            # algebraic variables: alg-alg links and links to the protected variable, both operand orders, both signs
+            roots = b.pnames + b.cnames + b.unames + b.states
+            root = r.choice(roots)
+            depth = r.randint(3, 6)
+            members, ceqs = [], []
+            planted = r.random() < 0.5
+
+            def link(a_, b_, sg_, a_first):
+                if sg_ > 0:
+                    return r.choice(["%s = %s", "%s - %s = 0"]) % ((a_, b_) if a_first else (b_, a_))
+                return r.choice(["%s = -%s", "%s + %s = 0"]) % ((a_, b_) if a_first else (b_, a_))
+            if planted:
+                # in this order: an alg-alg link, a link to the protected variable, then the equation joining the
+                # two classes written with the member of the alg-only class first
+                m0, m1, m2 = ["v%d" % (i + j) for j in range(3)]
+                s1, s2, s3 = r.choice([1, -1]), r.choice([1, -1]), r.choice([1, -1])
+                mx, my = (m0, m1) if r.random() < 0.5 else (m1, m0)
+                vals = {m2: s2 * b.sol[root]}
+                vals[mx] = s3 * vals[m2]
+                vals[my] = s1 * vals[mx]
+                for nm in (m0, m1, m2):
+                    b.declare(nm, "Real %s%s;" % (nm, b.attrs()), vals[nm])
+                b.head_eqs += [link(m0, m1, s1, r.random() < 0.5), link(m2, root, s2, r.random() < 0.5), link(mx, m2, s3, True)]
+                members = [m0, m1, m2]
+            for j in range(len(members), depth):
+                nm = "v%d" % (i + j)
+                # the protected variable is linked late in about half of the chains (alg-alg links come first)
+                cands = members + ([root] if (j == 0 or r.random() < 0.5 or j == depth - 1 and root not in [t for _, t in ceqs]) else [])
+                tgt = r.choice(cands) if cands else root
+                sg = r.choice([1, 1, -1])
+                b.declare(nm, "Real %s%s;" % (nm, b.attrs()), sg * b.sol[tgt])
+                if sg > 0:
+                    e = r.choice(["%s = %s" % (nm, tgt), "%s = %s" % (tgt, nm), "%s - %s = 0" % (nm, tgt), "%s - %s = 0" % (tgt, nm)])
+                else:
+                    e = r.choice(["%s = -%s" % (nm, tgt), "%s = -%s" % (tgt, nm), "%s + %s = 0" % (nm, tgt), "%s + %s = 0" % (tgt, nm)])
+                ceqs.append((e, tgt))
+                members.append(nm)
+            b.unknowns.extend(members)
+            b.eqs.extend(e for e, _ in ceqs)
+            b.kinds.append("aliaschain%d" % depth)
+            i += depth
             continue
         elif kind == "ifelim":
             # an if-equation defining an eliminable variable; after the SX round trip it is the sum of two
@@ -575,6 +623,12 @@ def gen_options(rng, case):
         o["expand_vectors"] = False if not o["expand_mx"] else o["expand_vectors"]
     elif stream in ("contradiction", "timealias"):
         o["detect_aliases"] = True
+    elif stream == "aliaschain":
+        o["detect_aliases"] = True
+        for k in ("replace_parameter_values", "replace_constant_values", "replace_parameter_expressions", "replace_constant_expressions"):
+            o[k] = rng.random() < 0.25          # mostly keep the protected variables symbolic
+        if rng.random() < 0.2:
+            o["iterative_simplification"] = True
     elif stream == "constexpr":
         o["replace_constant_values"] = True
         o["replace_constant_expressions"] = False
@@ -1092,7 +1146,8 @@ def plan(tier, prop):
     """[(stream, number of models, option sets per model)] — fixed per tier.  The small streams of the
     (former and open) findings come first so that the time budget never cuts them off."""
     q = tier == "quick"
-    p = [("contradiction", 3 if q else 40, 2), ("iter", 3 if q else 40, 2), ("delay", 5 if q else 60, 3)]
+    p = [("contradiction", 3 if q else 40, 2), ("iter", 3 if q else 40, 2), ("delay", 5 if q else 60, 3),
+         ("aliaschain", 8 if q else 150, 3)]
     if prop == "C15":
         p += [("constexpr", 2 if q else 30, 2), ("timealias", 2 if q else 20, 2),
               ("affineinit", 2 if q else 30, 2), ("iteraffine", 2 if q else 30, 2), ("iterparam", 2 if q else 30, 2)]
